@@ -217,7 +217,13 @@ func c19URI(env *core.Env, uri string, exp c19Expect, canonicalForm bool) {
 		check("NewIdentityFromHistoryURL", func() (*resource.Identity, error) { return resource.NewIdentityFromHistoryURL(uri) }, false)
 	}
 	// re-basing: WithServiceBaseURL then format / parse
-	for _, nb := range []string{"", "https://other.example/fhir"} {
+	beforeRebase := lit.URIString()
+	defer func() {
+		if now := lit.URIString(); now != beforeRebase {
+			env.Violatef("C19/rebase/receiver-changed", "parse(%q) formatted as %q; after deriving re-based literals from it it formats as %q", uri, beforeRebase, now)
+		}
+	}()
+	for _, nb := range []string{"https://other.example/fhir", "", "http://third.example/x"} {
 		var l3 *reference.LiteralInfo
 		var e3 error
 		var s3 string
@@ -784,6 +790,12 @@ func c19RefEntryPoints(env *core.Env, u string) {
 			continue
 		}
 		env.Cover("rebase-any-literal")
+		if now := base.URIString(); now != u && !(isID && strings.Contains(u, "//") && now == strings.ReplaceAll(u, "//", "/")) {
+			// (the literal parsed from u formats as u, except for redundant slashes; whatever it formatted as before, it still does)
+			if lit0, err0 := reference.LiteralInfoFromURI(u); err0 == nil && lit0.URIString() != now {
+				env.Violatef("C19/rebase/receiver-changed", "after parse(%q).WithServiceBaseURL(%q) the original literal formats as %q (a freshly parsed one as %q)", u, nb, now, lit0.URIString())
+			}
+		}
 		if !isID && s2 != base.URIString() {
 			// a fragment or a non-REST URI names the same thing whatever the server is
 			env.Violatef("C19/rebase/non-rest-literal-changed", "parse(%q).WithServiceBaseURL(%q) formats as %q, expected the literal itself", u, nb, s2)
